@@ -1,5 +1,6 @@
 /-
-  C10 (d), auxiliary: in a history in which no body raises and no orchestration fails (no `orchFail` event), of a
+  C10 (d), auxiliary: in a history in which no body raises, no orchestration fails (no `orchFail` event) and the
+  top-level task is not cancelled from outside (no `extCancel` event), of a
   configuration without window, timeout or forever job, nothing ever fails: no cancellation is ever requested, no task ends cancelled or with an exception, every run
   leaves its main loop for reason `success` (`Clean`, `clean_reach`).  Used by `Proofs/FlatB.lean`.
   Core Lean only.
@@ -57,12 +58,13 @@ theorem exc_back (c : Cfg) (st st' : StB) (e : EvB) (h : stepB c st e = some st'
   cases e <;> simp only [stepB] at h <;> (repeat' split at h) <;> (try (cases h; done))
   all_goals step_one
 
-/-- a cancellation is requested only by a run that leaves its main loop, on its unfinished jobs -/
+/-- a cancellation is requested only by a run that leaves its main loop, on its unfinished jobs — or from outside, on
+    the top-level task -/
 theorem creq_back (c : Cfg) (st st' : StB) (e : EvB) (h : stepB c st e = some st') (k : Nat)
     (hd : st'.a.creq k = true) :
     st.a.creq k = true ∨
       (st.pcB (c.parent k) = .loop ∧ st'.pcB (c.parent k) ≠ .loop ∧ (st.a.ph k).live = true ∧
-        k ∈ c.children (c.parent k)) := by
+        k ∈ c.children (c.parent k)) ∨ (e = .extCancel ∧ k = 0) := by
   revert hd
   cases e <;> simp only [stepB] at h <;> (repeat' split at h) <;> (try (cases h; done))
   all_goals step_one
@@ -125,13 +127,14 @@ theorem clean_leave (c : Cfg) (hplain : Plain c) (st st' : StB) (e : EvB)
     split at h
     · rename_i hg
       have := hC.noCreq s
-      rw [hg.2.2.2.2.1] at this; cases this
+      rw [hg.2.2.2.1] at this; cases this
     · cases h
   | crashed => exact absurd hr.1 (hnf s)
 
 theorem clean_step (c : Cfg) (hwf : c.wf = true) (hplain : Plain c) (st st' : StB) (e : EvB)
     (hA : InvA c st.a) (hB : InvB c st) (hE : ExitInv c st) (hC : Clean c st)
-    (hok : ∀ j, e ≠ .bodyEnd j false) (hnf : ∀ s, e ≠ .orchFail s) (h : stepB c st e = some st') : Clean c st' := by
+    (hok : ∀ j, e ≠ .bodyEnd j false) (hnf : ∀ s, e ≠ .orchFail s) (hnx : e ≠ .extCancel)
+    (h : stepB c st e = some st') : Clean c st' := by
   have hB' := invB_step c hwf st st' e hA hB h
   have hleave := clean_leave c hplain st st' e hA hB hC hnf h
   obtain ⟨f1, _, _, _⟩ := step_facts c st st' e h
@@ -141,10 +144,11 @@ theorem clean_step (c : Cfg) (hwf : c.wf = true) (hplain : Plain c) (st st' : St
     | false => rfl
     | true =>
       exfalso
-      rcases creq_back c st st' e h k hk with h1 | ⟨h1, h2, h3, h4⟩
+      rcases creq_back c st st' e h k hk with h1 | ⟨h1, h2, h3, h4⟩ | ⟨h1, _⟩
       · rw [hC.noCreq k] at h1; cases h1
       · have := (hleave _ h1 h2).2 k h4
         cases hph : st.a.ph k <;> simp [hph, Ph.live, Ph.isDone] at h3 this
+      · exact hnx h1
   have hexit : ∀ s x, (st'.pcB s).exitOf = some x → x = .success := by
     intro s x hx
     rcases ExitB.pcB_step c st st' e s hB h with ⟨q1, _⟩ | ⟨_, q1, _⟩ | ⟨q0, ⟨y, q1⟩, _⟩ |
@@ -194,11 +198,12 @@ theorem clean_step (c : Cfg) (hwf : c.wf = true) (hplain : Plain c) (st st' : St
       have := ((hE.successMeans s q0).1 k hk (hplain k (CoreB.mem_children.1 hk).1).2.2).1
       rw [q2]; simp only [setAt, if_neg hks]; exact this
 
-/-- `InvA`, `InvB`, `ExitInv` and `Clean` are carried along a history of a plain configuration in which no body raises
-    and no orchestration fails -/
+/-- `InvA`, `InvB`, `ExitInv` and `Clean` are carried along a history of a plain configuration in which no body raises,
+    no orchestration fails and nobody cancels the top-level task from outside -/
 theorem clean_accept (c : Cfg) (hwf : c.wf = true) (hplain : Plain c) (evs : List EvB) (st0 st : StB)
     (hA : InvA c st0.a) (hB : InvB c st0) (hE : ExitInv c st0) (hC : Clean c st0)
     (hok : ∀ j ok, EvB.bodyEnd j ok ∈ evs → ok = true) (hnf : ∀ s, EvB.orchFail s ∉ evs)
+    (hnx : EvB.extCancel ∉ evs)
     (h : acceptB c st0 evs = some st) : Clean c st := by
   induction evs generalizing st0 with
   | nil => simp only [acceptB] at h; cases h; exact hC
@@ -210,18 +215,20 @@ theorem clean_accept (c : Cfg) (hwf : c.wf = true) (hplain : Plain c) (evs : Lis
       have hE1 := exitInv_step c hwf st0 st1 e hA hB hE hs
       have hC1 := clean_step c hwf hplain st0 st1 e hA hB hE hC
         (fun j he => by have := hok j false (by rw [he]; exact List.mem_cons_self); cases this)
-        (fun s he => hnf s (by rw [he]; exact List.mem_cons_self)) hs
+        (fun s he => hnf s (by rw [he]; exact List.mem_cons_self))
+        (fun he => hnx (by rw [he]; exact List.mem_cons_self)) hs
       have hA1 : InvA c st1.a := by
         rcases stepB_refines c st0 st1 e hs with heq | ⟨ea, hea⟩
         · rw [heq]; exact hA
         · exact invA_step c hwf st0.a st1.a ea hA hea
       exact ih st1 hA1 hB1 hE1 hC1 (fun j ok hm => hok j ok (List.mem_cons_of_mem _ hm))
-        (fun s hm => hnf s (List.mem_cons_of_mem _ hm)) h
+        (fun s hm => hnf s (List.mem_cons_of_mem _ hm)) (fun hm => hnx (List.mem_cons_of_mem _ hm)) h
     · cases h
 
 theorem clean_reach (c : Cfg) (hwf : c.wf = true) (hplain : Plain c) (evs : List EvB) (st : StB)
     (hok : ∀ j ok, EvB.bodyEnd j ok ∈ evs → ok = true) (hnf : ∀ s, EvB.orchFail s ∉ evs)
+    (hnx : EvB.extCancel ∉ evs)
     (h : acceptB c StB.init evs = some st) : Clean c st :=
-  clean_accept c hwf hplain evs StB.init st (invA_init c) (invB_init c) (exitInv_init c) (clean_init c) hok hnf h
+  clean_accept c hwf hplain evs StB.init st (invA_init c) (invB_init c) (exitInv_init c) (clean_init c) hok hnf hnx h
 
 end AJ.Proofs.FlatB
